@@ -5,6 +5,7 @@ import (
 	"encoding/json"
 	"fmt"
 	"os"
+	"os/exec"
 	"path/filepath"
 	"sort"
 	"strings"
@@ -386,6 +387,21 @@ func (V *Verifier) checkProperty(prop string, verbose bool, t0 time.Time) int {
 			rc = 1
 		}
 	}
+	// bounded stand-ins: conformance tests of assumed contracts (labelled bounded, never counted as proved)
+	var bounded []map[string]interface{}
+	for _, bc := range boundedChecks[prop] {
+		res := V.runBounded(bc)
+		bounded = append(bounded, res)
+		if res["result"] != "pass" {
+			o := &Oblig{Name: bc.Name + "#bounded-conformance", Fn: bc.Name, Kind: "bounded", Status: "failed", Detail: fmt.Sprint(res["output"]), Clause: bc.What}
+			dir := V.writeReplay(prop, o)
+			violations++
+			fmt.Printf("VIOLATION property=%s replay=%s obligation=%s (bounded conformance test of an assumed contract failed on the real code)\n", prop, dir, o.Name)
+			if rc == 0 {
+				rc = 1
+			}
+		}
+	}
 	level := "proof"
 	cov := map[string]interface{}{
 		"obligations":              nReal,
@@ -406,7 +422,7 @@ func (V *Verifier) checkProperty(prop string, verbose bool, t0 time.Time) int {
 		"scan_obligations":         len(scan),
 		"lemma_obligations":        len(lem),
 		"not_decided_sentences":    notDecided[prop],
-		"bounded_standins":         []string{},
+		"bounded_standins":         bounded,
 	}
 	ev := Evidence{PropertyID: prop, Tier: V.tier, Seed: V.seed, Level: level, Coverage: cov, Assumptions: assumptionsFor(prop), WallS: round2(time.Since(t0).Seconds()), Violations: violations}
 	evDir := "/verif/evidence"
@@ -456,4 +472,62 @@ func (V *Verifier) writeReplay(prop string, o *Oblig) string {
 		os.WriteFile(filepath.Join(dir, "query.smt2"), []byte(q), 0o644)
 	}
 	return dir
+}
+
+// BoundedCheck is a conformance test of an assumed (trusted) contract, run on the real code with a stated bound.
+type BoundedCheck struct {
+	Name, What, Bound  string
+	TestFile, InPkgDir string // test source under /verif/conformance, injected with go test -overlay into this package directory of /repo
+	Run                string
+}
+
+var boundedChecks = map[string][]BoundedCheck{
+	"C03": {{Name: "types.BidsByPrice", What: "assumed contract of types.BidsByPrice (order book = regrouping of the bids by strictly descending price)",
+		Bound:    "BOUNDED: all lists of up to 4 bids and every 97th list of 5 bids over 24 bid shapes (3 prices x 2 bidders x 2 bid types x 2 amounts)",
+		TestFile: "/verif/conformance/bidsbyprice_conformance_test.go", InPkgDir: "x/fundraising/types", Run: "TestZZConformanceBidsByPrice"}},
+}
+
+func (V *Verifier) runBounded(bc BoundedCheck) map[string]interface{} {
+	out := map[string]interface{}{"name": bc.Name, "what": bc.What, "bound": bc.Bound, "label": "bounded"}
+	dir, err := os.MkdirTemp(os.Getenv("VERIF_SCRATCH_OR_VAR_TMP"), "govc-bounded-")
+	if err != nil {
+		dir, err = os.MkdirTemp("/var/tmp", "govc-bounded-")
+	}
+	if err != nil {
+		out["result"], out["output"] = "error", err.Error()
+		return out
+	}
+	defer os.RemoveAll(dir)
+	// the overlay carries the test file and whatever source overlays this run was started with (mutant runs)
+	repl := map[string]string{filepath.Join(V.repo, bc.InPkgDir, "zz_conformance_"+filepath.Base(bc.TestFile)): bc.TestFile}
+	for k, v := range V.overlayFiles {
+		repl[k] = v
+	}
+	ov, _ := json.Marshal(map[string]interface{}{"Replace": repl})
+	ovf := filepath.Join(dir, "overlay.json")
+	os.WriteFile(ovf, ov, 0o644)
+	cmd := exec.Command("go", "test", "-overlay", ovf, "-vet=off", "-count=1", "-timeout", "900s", "-run", bc.Run, "-v", "./"+bc.InPkgDir)
+	cmd.Dir = V.repo
+	cmd.Env = append(os.Environ(), "GOFLAGS=-mod=mod", "GOPROXY=off", "GOSUMDB=off", "GOTOOLCHAIN=local")
+	t0 := time.Now()
+	b, err := cmd.CombinedOutput()
+	out["wall_s"] = round2(time.Since(t0).Seconds())
+	txt := string(b)
+	if len(txt) > 2000 {
+		txt = txt[len(txt)-2000:]
+	}
+	out["output"] = txt
+	if err == nil && strings.Contains(string(b), "--- PASS: "+bc.Run) {
+		out["result"] = "pass"
+		for _, ln := range strings.Split(string(b), "\n") {
+			if i := strings.Index(ln, "contract held on "); i >= 0 {
+				var n int
+				fmt.Sscanf(ln[i+len("contract held on "):], "%d", &n)
+				out["cases"] = n
+			}
+		}
+	} else {
+		out["result"] = "fail"
+	}
+	return out
 }
